@@ -403,6 +403,7 @@ func (st *SlimTrie) getLeafPrefix(nodeid int32, qr *querySession) {
 }
 
 func (st *SlimTrie) getNode(nodeId int32, qr *querySession) {
+	verifPoint("getNode", nodeId, 0)
 
 	ns := st.inner
 	vars := st.vars
